@@ -159,7 +159,9 @@ theorem oi_loop1_step (newKey : Bytes) (update : Bool) (buf : Bytes) (i : Nat) (
         reduceCtorEq]
   · simp only [if_neg hk]
     by_cases hg : lexCmp newKey k = .gt
-    · simp only [if_pos hg, ← h1, Rs.add_usize_nat i 1 hi, Ctl.ofRes_ok', Ctl.val_bind', Ctl.pure_eq', Rs.loopStep_val']
+    · have hadd' : Rs.add .usize ((1 : Nat) : Int) ((i : Nat) : Int) = .ok (((i + 1 : Nat)) : Int) := by
+        rw [Rs.add_usize_nat 1 i (by omega), Nat.add_comm]
+      simp only [if_pos hg, ← h1, Rs.add_usize_nat i 1 hi, hadd', Ctl.ofRes_ok', Ctl.val_bind', Ctl.pure_eq', Rs.loopStep_val']
     · simp only [if_neg hg, Ctl.ret_bind', Rs.loopStep_brk']
 
 /-- the first loop is the model's `insertPos` -/
